@@ -372,3 +372,16 @@ THEOREMS = THEOREMS + [t for t in _pl.bodies_theorems(("BODIES_sqrt_", "BODIES_p
                                                       "BODIES_ln_Quantity", "BODIES_log10_Number", "BODIES_log10_Quantity", "BODIES_log2_Number",
                                                       "BODIES_log2_Quantity")) if t not in THEOREMS]
 GEN = GEN + [g for g in _pl.BODIES_GEN if g not in GEN]
+
+# ---- floats are this property's subject: `Model/Num.lean`'s rational -> double rounding (`posRatToBits`, the body of `ratToFloat`)
+# and double -> rational decoding (`floatToRat`) are PROVED against a specification of IEEE-754 binary64 round-to-nearest,
+# ties-to-even, over Rat / Nat at the level of bit patterns (Props/Rounding.lean; the specification `bitsToRat` / `isFiniteBits`
+# is at the top of Lemmas/RoundingLemmas.lean)
+LEAN_MODULES = LEAN_MODULES + ["KaVerif.Props.Rounding"]
+THEOREMS = THEOREMS + ["KaVerif.ROUND_decode", "KaVerif.ROUND_decode_units", "KaVerif.ROUND_monotone_bits", "KaVerif.ROUND_order_iff",
+                       "KaVerif.ROUND_nearest", "KaVerif.ROUND_ties_even", "KaVerif.ROUND_overflow", "KaVerif.ROUND_zero",
+                       "KaVerif.ROUND_underflow", "KaVerif.ROUND_exact", "KaVerif.ROUND_exact_lowest_terms"]
+LEVEL_TEXT = LEVEL_TEXT + (" The model's rational -> double conversion (`float(int)`, `float(Fraction)`; `Num.posRatToBits`) is machine-checked against "
+                           "IEEE-754 binary64 round-to-nearest, ties-to-even at the level of bit patterns: nearest finite double, even mantissa on a tie, "
+                           "overflow exactly from 2^1024 - 2^970, +0 exactly up to 2^-1075, a double's exact value rounds to itself; the order of finite "
+                           "patterns is the order of their values (theorems ROUND_*).")
